@@ -408,6 +408,7 @@ class SignalNamespace:
     """
     def __init__(self, name_dict, reserved_keywords=set()):
         self.counts        = {k: 1 for k in reserved_keywords}
+        self.used          = set(reserved_keywords)
         self.sigs          = {}
         self.name_dict     = name_dict
         self.clock_domains = dict()
@@ -450,8 +451,12 @@ class SignalNamespace:
         n = self.sigs.get(sig)
         if n is None:
             n = self.counts.get(sig_name, 0)
+            # Skip suffixes that would produce an already issued name.
+            while (sig_name if n == 0 else sig_name + f"_{n}") in self.used:
+                n += 1
             self.sigs[sig] = n
             self.counts[sig_name] = n + 1
+            self.used.add(sig_name if n == 0 else sig_name + f"_{n}")
         # If the count is greater than 0, append it to the signal name.
         if n > 0:
             sig_name += f"_{n}"
